@@ -296,7 +296,7 @@ pub fn c06(ctx: &Ctx) -> i32 {
     let mut p = Profile::full();
     p.ops = (150, 300);
     p.w_modify = 45;
-    p.w_reload = 0;
+    p.w_reload = 1; // the modify rule must also hold on a book that went through a snapshot
     p.w_toggle = 2;
     let spec = BookSpec {
         check: "c06",
